@@ -422,10 +422,11 @@ impl<T: Clone + Eq + Debug + Default> WrappedBlock<T> {
                 }
 
                 // Write any remaining whitespace
+                let ws_width = self.progress_width()?;
                 while self.wslen > 0 {
-                    let to_copy = self.wslen.min(self.width);
+                    let to_copy = self.wslen.min(ws_width);
                     self.line.push_ws(to_copy, self.spacetag.as_ref().unwrap());
-                    if to_copy == self.width {
+                    if to_copy == ws_width {
                         self.flush_line();
                     }
                     self.wslen -= to_copy;
@@ -501,6 +502,19 @@ impl<T: Clone + Eq + Debug + Default> WrappedBlock<T> {
             }
         }
         Ok(())
+    }
+
+    /// The width to fill whitespace against.  A zero-width block can't hold
+    /// anything: that is an error unless overflow is allowed, in which case
+    /// we overflow by the minimum of one column (and so always make progress).
+    fn progress_width(&self) -> Result<usize> {
+        if self.width > 0 {
+            Ok(self.width)
+        } else if self.allow_overflow {
+            Ok(1)
+        } else {
+            Err(TooNarrow)
+        }
     }
 
     fn flush_line(&mut self) {
@@ -610,10 +624,11 @@ impl<T: Clone + Eq + Debug + Default> WrappedBlock<T> {
                         }
                         '\t' => {
                             let tab_stop = 8;
+                            let width = self.progress_width()?;
                             let mut pos = self.line.len + self.wslen;
                             let mut at_least_one_space = false;
                             while pos % tab_stop != 0 || !at_least_one_space {
-                                if pos >= self.width {
+                                if pos >= width {
                                     self.flush_line();
                                     pos = 0;
                                 } else {
